@@ -15,3 +15,15 @@ package state
 //@   prop C04
 //@   modifies nothing
 //@   ensures [unfiltered] !snHidesTaints(in) ==> result == snRawTaints(in)
+
+// ---- (4) Synced: no scheduling pass while a NodeClaim Karpenter created has not been launched ----
+// A NodeClaim is tracked by name from the moment it is created; its provider ID is empty until it is launched.
+// Synced answers true only if every tracked NodeClaim has a provider ID (both on the fast path after the first
+// successful sync and on the full comparison with the API server).
+//@ pure allLaunched(c *Cluster) bool = forall n string {n in c.nodeClaimNameToProviderID} :: (n in c.nodeClaimNameToProviderID) ==> c.nodeClaimNameToProviderID[n] != ""
+//@ func (*Cluster).Synced
+//@   prop C04
+//@   modifies * except c.nodeClaimNameToProviderID, c.nodeClaimNameToProviderID[:], c.nodeNameToProviderID, c.nodeNameToProviderID[:], c.nodes, c.nodes[:]
+//@   ensures [allLaunched] synced ==> allLaunched(c)
+//@   loop 1 invariant forall n string {n in c.nodeClaimNameToProviderID} :: seen(n) ==> c.nodeClaimNameToProviderID[n] != ""
+//@   loop 2 invariant forall n string {n in c.nodeClaimNameToProviderID} :: seen(n) ==> c.nodeClaimNameToProviderID[n] != ""
